@@ -933,3 +933,55 @@ func ruleM6(c *Ctx, rule string) {
 		r.Finding(rule, key, c.P.pos(cb.Pos()), "the merge callback can return one of its operands itself ("+leak+") instead of a copy: an update applied to the result of `x * y` rewrites x")
 	}
 }
+
+// ---- U6 (C02): relative update takes the first result --------------------------
+
+// ruleU6: in the assign handlers the value handed to UpdateFrom /
+// UpdateAttributesFrom is the element returned by `rhs.MatchingNodes.Front()`
+// itself — not a loop variable running over all results (last one would win).
+func ruleU6(c *Ctx, rule string) {
+	r := c.R
+	for _, name := range []string{"assignUpdateOperator", "assignAttributesOperator"} {
+		fn := c.libFunc(name)
+		if fn == nil {
+			r.Fatal("anchor missing: %s", name)
+			continue
+		}
+		n := 0
+		eachInstr(fn, func(ins ssa.Instruction) {
+			call, ok := ins.(*ssa.Call)
+			if !ok || call.Call.StaticCallee() == nil {
+				return
+			}
+			cn := call.Call.StaticCallee().Name()
+			if cn != "UpdateFrom" && cn != "UpdateAttributesFrom" {
+				return
+			}
+			n++
+			key := name + "/" + cn + "(first result)"
+			// arg 1: typeassert(load(&el.Value)) with el = Front() call (not a phi advanced by Next)
+			v := call.Call.Args[1]
+			if ta, ok := v.(*ssa.TypeAssert); ok {
+				v = ta.X
+			}
+			var el ssa.Value
+			if u, ok := v.(*ssa.UnOp); ok {
+				if fa, ok := u.X.(*ssa.FieldAddr); ok && fieldName(fa) == "Value" {
+					el = fa.X
+				}
+			}
+			isFront := false
+			if ec, ok := el.(*ssa.Call); ok {
+				isFront = calleeName(&ec.Call) == "(*container/list.List).Front"
+			}
+			if isFront {
+				r.Discharge(rule, key, c.P.pos(call.Pos()), "the target is updated once, from the first result of the right-hand side")
+			} else {
+				r.Finding(rule, key, c.P.pos(call.Pos()), "the target is updated from a value that is not `rhs.MatchingNodes.Front()` (a loop over all results makes the last one win): `p |= f` must give each match the FIRST result of f")
+			}
+		})
+		if n == 0 {
+			r.Note("%s: %s no longer calls UpdateFrom/UpdateAttributesFrom directly", rule, name)
+		}
+	}
+}
